@@ -102,11 +102,14 @@ func replayDump(R *Result, in dumpInput, beh []dumpStep, bi int) error {
 	commit := func() error {
 		return inst.Env.Update(func(txn *lmdb.Txn) error {
 			if h := holdCh; h != nil {
-				if hs := holdStarted; hs != nil {
-					close(hs) // the write lock is held
-					holdStarted = nil
-				}
-				defer func() { <-h }()
+				hs := holdStarted
+				holdStarted = nil
+				defer func() {
+					if hs != nil {
+						close(hs) // the write lock is held and everything is written
+					}
+					<-h
+				}()
 			}
 			cur := rawContent{}
 			for di, d := range dbis {
@@ -227,6 +230,26 @@ func replayDump(R *Result, in dumpInput, beh []dumpStep, bi int) error {
 		return true
 	}
 
+	// a behaviour may end with the application's transaction still open or the dump parked at a gate: let both
+	// finish, or their goroutines (each locked to an OS thread by LMDB) stay behind
+	defer func() {
+		if holdCh != nil {
+			close(holdCh)
+			<-heldDone
+		}
+		if sendDone != nil {
+			for {
+				select {
+				case <-sendDone:
+					return
+				case <-gateCh:
+				case resume <- struct{}{}:
+				case <-time.After(10 * time.Second):
+					return
+				}
+			}
+		}
+	}()
 	for si, st := range beh {
 		a := st.Act
 		R.Add(1, 0, 0)
